@@ -96,7 +96,7 @@ class FakeSock:
         k = self.kern
         k.ntx += 1
         k.log.append(('tx', self.fd, k.now, data))
-        if k.ntx > TX_CAP:
+        if k.ntx > k.tx_cap:
             k.abort = 'flood'
             return len(data)
         self.peer.on_send(self, data)  # may raise OSError (send error chosen by the script)
@@ -130,6 +130,7 @@ class Kernel:
         self.keys = {}
         self.log = []
         self.ntx = 0
+        self.tx_cap = TX_CAP
         self.abort = None
         self.ctx = ctx
         self.peers = dict(peers or {})
